@@ -481,8 +481,18 @@ def _index_loop_next(ctx, b, fl, e, fields):
     e = strip_refs(e)
     if e[0] != "proj":
         return None
-    fld = c07.field_of(e) or ""
-    if fld[1:] not in fields:
+
+    def buf_id(x):
+        """the buffer an expression is rooted in: the field itself, or the value taken out of it whole (mem::replace / mem::take)"""
+        f_ = c07.field_of(x) or ""
+        if f_[1:] in fields:
+            return ("field", f_)
+        for c_ in ([x] if x[0] == "call" else []) + list(expr_calls(x)):
+            if re.search(r"core::mem::(replace|take)$", c_[1] or "") and c_[2] and (c07.field_of(strip_refs(c_[2][0])) or "")[1:] in fields:
+                return ("taken", c_[3])
+        return None
+    bid = buf_id(e)
+    if bid is None:
         return None
     for el in e[2]:
         m = re.match(r"\[_(\d+)\]$", el)
@@ -497,7 +507,7 @@ def _index_loop_next(ctx, b, fl, e, fields):
                 if it[0] == "agg" and it[1].endswith("Range::Range") and it[2][0][0] == "const" and it[2][0][2] == "0":
                     hi = strip_refs(it[2][1])
                     if hi[0] == "call" and re.search(r"core::slice::<impl \[T\]>::len$", hi[1] or "") and hi[2] and \
-                            (c07.field_of(strip_refs(hi[2][0])) or "")[1:] in fields:
+                            buf_id(strip_refs(hi[2][0])) == bid:
                         return c
     return None
 
